@@ -203,8 +203,28 @@ def zite(g, a, b):
     return z3.If(g, a, b)
 
 
-def ite_val(g, a, b):
-    """Structured if-then-else."""
+def ite_val(g, a, b, memo=None):
+    """Structured if-then-else (memoised on object identity so that shared sub-values stay shared)."""
+    if same(a, b):
+        return a
+    if a is None:
+        return b
+    if b is None:
+        return a
+    if is_z3(a) or isinstance(a, Unit):
+        return _ite_val(g, a, b, memo)
+    if memo is None:
+        memo = {}
+    key = (id(a), id(b))
+    r = memo.get(key)
+    if r is None:
+        r = _ite_val(g, a, b, memo)
+        memo[key] = (r, a, b)
+        return r
+    return r[0]
+
+
+def _ite_val(g, a, b, memo):
     if same(a, b):
         return a
     if a is None:
@@ -218,7 +238,7 @@ def ite_val(g, a, b):
     if isinstance(a, Unit) and isinstance(b, Unit):
         return a
     if isinstance(a, Agg) and isinstance(b, Agg) and len(a.fields) == len(b.fields):
-        return Agg([ite_val(g, x, y) for x, y in zip(a.fields, b.fields)], a.tag)
+        return Agg([ite_val(g, x, y, memo) for x, y in zip(a.fields, b.fields)], a.tag)
     if isinstance(a, EnumV) and isinstance(b, EnumV):
         vs = {}
         for k in set(a.variants) | set(b.variants):
@@ -228,14 +248,14 @@ def ite_val(g, a, b):
             elif fb is None:
                 vs[k] = fa
             else:
-                vs[k] = tuple(ite_val(g, x, y) for x, y in zip(fa, fb))
+                vs[k] = tuple(ite_val(g, x, y, memo) for x, y in zip(fa, fb))
         return EnumV(a.edef or b.edef, zite(g, a.discr, b.discr), vs, a.targs or b.targs)
     if isinstance(a, BoxV) and isinstance(b, BoxV):
-        return BoxV(ite_val(g, a.content, b.content))
+        return BoxV(ite_val(g, a.content, b.content, memo))
     if isinstance(a, BoxPtr) and isinstance(b, BoxPtr):
-        return BoxPtr(ite_val(g, a.content, b.content))
+        return BoxPtr(ite_val(g, a.content, b.content, memo))
     if isinstance(a, ValRef) and isinstance(b, ValRef):
-        return ValRef(ite_val(g, a.val, b.val))
+        return ValRef(ite_val(g, a.val, b.val, memo))
     if isinstance(a, PlaceRef) and isinstance(b, PlaceRef):
         if a.cell == b.cell and a.path == b.path:
             return a
@@ -250,7 +270,7 @@ def ite_val(g, a, b):
     if isinstance(a, Opaque) and isinstance(b, Opaque):
         return a if a.tag == b.tag else Opaque('merge(%s|%s)' % (a.tag, b.tag))
     if isinstance(a, Model) and isinstance(b, Model) and a.kind == b.kind and set(a.f) == set(b.f):
-        return Model(a.kind, **{k: ite_val(g, a.f[k], b.f[k]) for k in a.f})
+        return Model(a.kind, **{k: ite_val(g, a.f[k], b.f[k], memo) for k in a.f})
     if isinstance(a, FnItem) and isinstance(b, FnItem) and a.text == b.text:
         return a
     raise Unsupported("cannot merge %r with %r" % (type(a).__name__, type(b).__name__))
@@ -375,13 +395,16 @@ class CFG:
 
 
 class State:
-    __slots__ = ('mem',)
+    """mem: cell -> value.  dom: name of a symbolic discriminant variable -> frozenset of values it can
+    still take on this path (a cheap abstract domain used to prune switch targets without the solver)."""
+    __slots__ = ('mem', 'dom')
 
-    def __init__(self, mem=None):
+    def __init__(self, mem=None, dom=None):
         self.mem = mem if mem is not None else {}
+        self.dom = dom if dom is not None else {}
 
     def copy(self):
-        return State(dict(self.mem))
+        return State(dict(self.mem), dict(self.dom))
 
 
 def merge_states(items):
@@ -406,7 +429,19 @@ def merge_states(items):
             else:
                 acc = ite_val(g, v, acc)
         out[k] = acc
-    return g_total, State(out)
+    dom = {}
+    first = items[0][1].dom
+    for name, d in first.items():
+        u = d
+        for _, st in items[1:]:
+            d2 = st.dom.get(name)
+            if d2 is None:
+                u = None
+                break
+            u = u | d2
+        if u is not None:
+            dom[name] = u
+    return g_total, State(out, dom)
 
 
 class Executor:
@@ -414,6 +449,10 @@ class Executor:
         self.dump, self.defs = dump, defs
         self.loop_bound = loop_bound
         self.loop_bounds = {}          # (fn name, header bb) -> bound
+        self.prune_switch = False      # solver-based pruning of switch targets (slow; off)
+        self.base_dom = {}
+        self.memo_pure = True
+        self.pure_cache = {}
         self.call_depth = call_depth
         self.obligations = []          # (kind, guard, msg)
         self.assumptions = []
@@ -501,17 +540,28 @@ class Executor:
             discr = z3.BitVec(name + '#', 64)
             variants = {}
             allowed = []
+            # Payload slots are shared between variants: exactly one variant is active, so a field of
+            # type T in variant A and one in variant B can be the same symbolic value.  This keeps a
+            # depth-d symbolic type linear in d instead of exponential, and loses no concrete value.
+            slots = {}
             for vname, d, fields in edef.variants:
                 needs_box = any(re.search(r'\bBox<', ft) for _, ft in fields)
                 if needs_box and depth <= 0:
                     continue
                 fv = []
+                occ = collections.Counter()
                 for i, (fname, ft) in enumerate(fields):
                     ft = subst(ft, targs).replace('Self', selfty)
-                    fv.append(self.fresh_value(ft, '%s.%s.%s' % (name, vname, fname or i), depth, None, expand))
+                    key = (ft, occ[ft])
+                    occ[ft] += 1
+                    if key not in slots:
+                        label = re.sub(r'[^A-Za-z0-9]+', '_', strip_paths(ft)).strip('_')
+                        slots[key] = self.fresh_value(ft, '%s.%s%d' % (name, label, key[1]), depth, None, expand)
+                    fv.append(slots[key])
                 variants[vname] = tuple(fv)
                 allowed.append(d)
             self.assume(zor(*[discr == bv(d, 64) for d in allowed]))
+            self.base_dom[discr.decl().name()] = frozenset(allowed)
             return EnumV(edef, discr, variants, targs)
         sdef = self.defs.find_struct(base_name(ty))
         if sdef is not None and sdef.fields:
@@ -1059,7 +1109,30 @@ class Executor:
         return c
 
     def call_function(self, fn, args, guard, st):
-        """Inline fn. Returns (guard_after, return value); st is updated in place."""
+        """Inline fn. Returns (guard_after, return value); st is updated in place.
+        Calls whose arguments are all immutable values (no &mut) are pure: they are executed once
+        under the guard `true` and the summary (ok-condition, value, obligations) is reused."""
+        if self.memo_pure and not isinstance(fn, ClosureAdapter):
+            key = _pure_key(fn, args)
+            if key is not None:
+                hit = self.pure_cache.get(key)
+                if hit is None:
+                    n_ob = len(self.obligations)
+                    st2 = State({}, {})
+                    g0, v0 = self._call_function(fn, args, z3.BoolVal(True), st2)
+                    obs = self.obligations[n_ob:]
+                    del self.obligations[n_ob:]
+                    hit = (g0, v0, obs, args)
+                    self.pure_cache[key] = hit
+                else:
+                    self.stats['memo_hits'] += 1
+                g0, v0, obs, _keep = hit
+                for kind, og, msg in obs:
+                    self.oblige(kind, zand(guard, og), msg)
+                return zand(guard, g0), v0
+        return self._call_function(fn, args, guard, st)
+
+    def _call_function(self, fn, args, guard, st):
         if len(self.stack) >= self.call_depth:
             raise PathAbort('recursion', 'call depth %d reached at %s' % (self.call_depth, fn.name))
         self.frame_serial += 1
@@ -1211,22 +1284,53 @@ class Executor:
             v = self.eval_operand(st, frame, fn, t[1])
             out = []
             taken = []
+            dname, dom = None, None
             if z3.is_bool(v):
                 conds = [(znot(v) if val == 0 else v) for val, _ in t[2]]
             else:
                 w = v.size()
                 conds = [v == bv(val, w) for val, _ in t[2]]
+                if z3.is_const(v) and v.decl().kind() == z3.Z3_OP_UNINTERPRETED:
+                    dname = v.decl().name()
+                    dom = st.dom.get(dname, self.base_dom.get(dname))
+            seen_vals = set()
             for (val, bb), c in zip(t[2], conds):
+                if dom is not None:
+                    sval = val if val < (1 << 63) else val - (1 << 64)
+                    if val not in dom and sval not in dom:
+                        self.stats['pruned_branches'] += 1
+                        continue
+                    seen_vals.add(val if val in dom else sval)
                 c = z3.simplify(c)
                 if z3.is_false(c):
                     continue
                 taken.append(c)
-                out.append((bb, zand(guard, c), st.copy()))
                 if z3.is_true(c):
                     return [(bb, guard, st)]
+                gc = zand(guard, c)
+                if self.prune_switch and not self.feasible(gc):
+                    self.stats['pruned_branches'] += 1
+                    continue
+                st2 = st.copy()
+                if dom is not None:
+                    st2.dom[dname] = frozenset([val if val in dom else sval])
+                out.append((bb, gc, st2))
             if t[3] is not None:
+                rest = None
+                if dom is not None:
+                    rest = dom - seen_vals
+                    if not rest:
+                        self.stats['pruned_branches'] += 1
+                        return out
                 c = znot(zor(*taken)) if taken else z3.BoolVal(True)
-                out.append((t[3], zand(guard, c), st.copy()))
+                gc = zand(guard, c)
+                if self.prune_switch and taken and not self.feasible(gc):
+                    self.stats['pruned_branches'] += 1
+                else:
+                    st2 = st.copy()
+                    if rest is not None:
+                        st2.dom[dname] = frozenset(rest)
+                    out.append((t[3], gc, st2))
             return out
         if k == 'call':
             dest, callee, args, ret_bb = t[1], t[2], t[3], t[4]
@@ -1357,6 +1461,27 @@ class Executor:
             for which in range(len(spans)):
                 self.impl_index.append({'name': name, 'which': which, 'method': meth, 'trait': trait,
                                         'self': selfty or '?'})
+
+
+def _val_key(v):
+    if is_z3(v):
+        return ('z', v.get_id())
+    if isinstance(v, ValRef):
+        k = _val_key(v.val)
+        return None if k is None else ('r', k)
+    if isinstance(v, (EnumV, Agg, BoxV, BoxPtr, SliceRef, Opaque, Unit, FnItem)):
+        return ('o', id(v))
+    return None
+
+
+def _pure_key(fn, args):
+    ks = []
+    for a in args:
+        k = _val_key(a)
+        if k is None:
+            return None
+        ks.append(k)
+    return (fn.name, tuple(ks))
 
 
 class DowncastView:
